@@ -742,9 +742,9 @@ def preimport():
 
 SUBS = [
     Sub("transforms", exec_aug, strategy=lambda tier: aug_cases(tier),
-        budget={"quick": 5000, "thorough": 100000}, shards=16),
+        budget={"quick": 15008, "thorough": 100000}, shards=16),
     Sub("evaluation", exec_eval, strategy=lambda tier: eval_cases(tier),
-        budget={"quick": 160, "thorough": 3000}, shards=16, shrink=False, minimize=_min_eval, weight=3.0),
+        budget={"quick": 480, "thorough": 3000}, shards=16, shrink=False, minimize=_min_eval, weight=3.0),
     Sub("pomo_step", exec_pomo, strategy=lambda tier: pomo_cases(tier),
-        budget={"quick": 64, "thorough": 1200}, shards=8, shrink=False, minimize=_min_pomo, weight=2.0),
+        budget={"quick": 192, "thorough": 1200}, shards=8, shrink=False, minimize=_min_pomo, weight=2.0),
 ]
